@@ -120,8 +120,8 @@ CHECKS["C12"] = {
     "level": "proof",
     "quick_fs": ["default"],
     "thorough_fs": ["default", "checks", "no_copy_impls", "both"],
-    "technique": "abstract interpretation of MIR with slice-length contracts (chunks_exact, try_into, copy_from_slice, range indexing) per word size; structural byte-order pairing",
-    "claim": "For the io::Write impls of BufBitWriter (u8..u128) and the io::Read impls of BufBitReader (u8..u64) and BitReader: (B1) every chunk handed to <[u8; 8]>::try_from(..).unwrap() provably has 8 bytes, the remainder is narrower than 64 bits, copy_from_slice operands have equal lengths, range indices are in bounds, read_bits/write_bits widths <= 64, invariants re-established - i.e. no word size follows a panicking or truncating path; (B2) BE impls use be byte conversions, LE impls le ones, LE remainder assembled in reverse; (B3) success returns Ok(buf.len()); (B4) failures surface as io::Error. Undecided: byte values. Included obligations: every backend word fetched or delivered on the byte paths is converted with to_be/to_le of the stream (C02.R1, C01.W2).",
+    "technique": "abstract interpretation of MIR with slice-length contracts (chunks_exact, try_into, copy_from_slice, range indexing) per word size; structural byte-order pairing; abstract interpretation of the six io bodies on buffers of every length 0..=17 (0..=40 thorough) with bytes as tokens and the stream primitives stubbed",
+    "claim": "For the io::Write impls of BufBitWriter (u8..u128) and the io::Read impls of BufBitReader (u8..u64) and BitReader: (B1) every chunk handed to <[u8; 8]>::try_from(..).unwrap() provably has 8 bytes, the remainder is narrower than 64 bits, copy_from_slice operands have equal lengths, range indices are in bounds, read_bits/write_bits widths <= 64, invariants re-established - i.e. no word size follows a panicking or truncating path; (B2) BE impls use be byte conversions, LE impls le ones, LE remainder assembled in reverse; (B3) success returns Ok(buf.len()); (B4) failures surface as io::Error. Undecided: byte values. Included obligations: every backend word fetched or delivered on the byte paths is converted with to_be/to_le of the stream (C02.R1, C01.W2). (B6) Each of the six bodies, interpreted for every buffer length 0..=17 (0..=40 in the thorough tier) with pairwise different byte tokens and write_bits / read_bits stubbed: the fields handed to write_bits, read in stream order, are exactly the buffer's bytes in order (chunks and the 1..7 byte remainder alike); the bytes stored by read are exactly the stream bytes of the values read, in order; the whole length is reported. A path that works directly on the stream's own fields is outside this rule (not decided, reported as such in the evidence).",
     "note": "Trusted: std contracts in sa/contracts.py, rustc MIR, exporter, LP entailment.",
     "explanation": "E3 obligations + structural rules over six bodies",
 }
